@@ -659,6 +659,9 @@ func runCore(seed uint64, n int, out *Out) {
 				// ---- market resolve
 				m := pickMarket()
 				status := int(r.Pick([]int64{5, 5, 5, 3, 4, 1}))
+				if r.Chance(6) {
+					status = int(r.Pick([]int64{0, 2, 6, 7, 100})) // not a resolution status (6, 7, 100: not a status at all)
+				}
 				var winners []string
 				if status == 5 || r.Chance(5) {
 					winners = []string{m.odds[r.Intn(len(m.odds))]}
